@@ -42,6 +42,9 @@ func c06BatchInvariant(env *VEnv, erc20 types.EthAddress, nonce uint64, label st
 				who = i
 			}
 		}
+		if who >= 0 && env.EVM.NoKey[who] {
+			ok = false // no key registered for this chain: nothing it sends can be a valid confirmation
+		}
 		if ok && who >= 0 {
 			a, err := types.EthAddressFromSignature(cur.BytesToSign, sig)
 			ok = err == nil && a.GetAddress().Hex() == vEthAddrs[who]
@@ -73,6 +76,11 @@ func VerifC06_Batch() {
 	}
 	srv := NewMsgServerImpl(env.K)
 	published := [][]byte{batch.BytesToSign}
+	// validator 1 may have no account registered for this chain (never registered, or
+	// re-registered its chain infos without it)
+	if sym.Bool("validator-1-has-no-key-on-this-chain") {
+		env.EVM.NoKey = map[int]bool{1: true}
+	}
 	// pre-state: validator 0 may already have a genuine confirmation on record
 	if sym.Bool("already-confirmed-by-validator-0") {
 		orch := sdk.AccAddress(vVals[0]).String()
